@@ -306,6 +306,19 @@ def extract(ctx):
         return a, b, (ast.unparse(li) if li is not None else "?"), (ast.unparse(lo) if lo is not None else "?")
     l1, o1, s1, s2 = lim(ck, "")
     l2, o2, _, _ = lim(cp, "P")
+    # control flow of constraint_predictions: top-level tests / loops, every `return`, and the association call(s)
+    pctl = []
+    for st in cp.body:
+        if isinstance(st, ast.If):
+            pctl.append("if " + ast.unparse(st.test))
+        elif isinstance(st, (ast.For, ast.While, ast.Try, ast.With)):
+            pctl.append(type(st).__name__.lower())
+    pctl += ["return " + (ast.unparse(n.value) if n.value is not None else "") for n in ast.walk(cp) if isinstance(n, ast.Return)]
+    passoc = [", ".join([ast.unparse(a) for a in c.args] + ["%s=%s" % (k.arg, ast.unparse(k.value)) for k in c.keywords])
+              for c in pyexpr.calls(cp, "_constraint_association")]
+
+    def _ls(xs):
+        return "[" + ", ".join('"%s"' % x.replace('"', "'") for x in xs) + "]"
     # outer loop
     wh = [n for n in ast.walk(ck) if isinstance(n, ast.While) and "max_iter" in ast.unparse(n.test)]
     guard = _bool(pyexpr.Tr({"iter": ("iter", "int"), "max_iter": ("maxIter", "int")}), wh[0].test) \
@@ -363,6 +376,10 @@ def leftover (n k : Int) : Int := %(o1)s
 /-! constraint_predictions -/
 def limitP (n k : Int) : Int := %(l2)s
 def leftoverP (n k : Int) : Int := %(o2)s
+/-- top-level tests / loops of `constraint_predictions` and every `return` of it, in source order -/
+def predictionsControl : List String := %(pctl)s
+/-- arguments of the `_constraint_association` call(s) made by `constraint_predictions` -/
+def predictionsAssociation : List String := %(passoc)s
 
 /-! outer loop of constraint_kmeans -/
 def outerGuard (iter maxIter : Int) : Bool := %(guard)s
@@ -412,7 +429,7 @@ def finalQuota (cDest cCur ave lDest lCur : Int) : Bool := %(finalQuota)s
 def predictPath (weightsNone balanced : Bool) : Nat := %(ppath)s
 
 end MlVerif.Gen.C07
-""" % dict(s1=s1, s2=s2, l1=l1, o1=o1, l2=l2, o2=o2, guard=guard, iter_next=iter_next, better=better,
+""" % dict(pctl=_ls(pctl), passoc=_ls(passoc), s1=s1, s2=s2, l1=l1, o1=o1, l2=l2, o2=o2, guard=guard, iter_next=iter_next, better=better,
            early=early, ic=fill["init_counters"], il=fill["init_leftclose"], ilab=fill["init_labels"],
            fwhile=fill["while"], nover0=fill["nover0"], skip=fill["skip"], accA=fill["accA"],
            accB=fill["accB"], effA=eff(fill["effA"]), effB=eff(fill["effB"]), ave=gain["ave"],
